@@ -1,19 +1,30 @@
 """C05 — accepted => the whole token stream is one grammar sentence."""
 import json, re, sys
-from tools.harness import common, lr, gen, streams, extra
+from tools.harness import common, lr, gen, streams, extra, slylex
 import itertools
 from tools.harness.common import DIALECTS
 
 ID = 'C05'
-TARGETS = ['MindsVerif.Props.C05']
+TARGETS = ['MindsVerif.Props.C05', 'MindsVerif.Props.C05Text']
 THEOREMS = ['MindsVerif.Props.C05.C05_sqlite', 'MindsVerif.Props.C05.C05_mysql',
             'MindsVerif.Props.C05.C05_mindsdb', 'MindsVerif.Props.C05.C05_sentence',
             'MindsVerif.Props.C05.C05_no_accept_after_error', 'MindsVerif.Props.C05.C05_generic',
-            'MindsVerif.Props.C05.C05_review_reject_nonsentence']
+            'MindsVerif.Props.C05.C05_review_reject_nonsentence',
+            # from the text down: strip + regex-level lexer model + table-driven parser (Props/C05Text.lean)
+            'MindsVerif.Props.C05Text.C05_text_generic', 'MindsVerif.Props.C05Text.C05_text_sqlite',
+            'MindsVerif.Props.C05Text.C05_text_mysql', 'MindsVerif.Props.C05Text.C05_text_mindsdb',
+            'MindsVerif.Props.C05Text.namesOK_sqlite', 'MindsVerif.Props.C05Text.namesOK_mysql',
+            'MindsVerif.Props.C05Text.namesOK_mindsdb', 'MindsVerif.Props.C05Text.names_match_tables',
+            'MindsVerif.Props.C05Text.strip_pin', 'MindsVerif.Props.C05Text.rstrip_spec',
+            'MindsVerif.Props.C05Text.C05_text_example']
 ASSUME = [
     'Parser.parse / the two error() callbacks are hand-modelled (MindsVerif.LR.parse); tie = LR correspondence stream',
     'the grammar of the theorem is the production list exported with the tables',
     'Earley recogniser (Python) is a search oracle only',
+    'text level (C05_text_<dialect>): parse_sql = strip the trailing [\\s;] run, Lexer.tokenize, Parser.parse is composed from the hand models '
+    'Model/TextParse.lean, Model/SlyLex.lean (+ Model/Re.lean), Model/LR.lean over regenerated data (master regex parse tree, strip class, '
+    'terminal names, LR tables); tie = streams slylex (C02), lr and text (accept / ParsingException / LexError index of the real parse_sql; '
+    'the semantic actions are not modelled: an action may reject a grammatical sentence, never the converse)',
 ]
 
 
@@ -37,6 +48,7 @@ def probe_case(dialect, text, earley):
 
 def run(chk):
     quick = chk.tier == 'quick'
+    common.install_lexer_guard()   # a lexer that stops advancing is reported as a hang, it cannot stall the check
     broken = bool(chk.broken())
     deep = (not quick) or broken
     n_mut, n_sent = (500, 300) if not deep else (15000, 8000)
@@ -83,9 +95,12 @@ def run(chk):
         chk.corr_result('lr', len(lines), diverged, first, dist)
     except Exception as e:
         chk.oblige('corr:lr', 'correspondence', False, 'driver failed: %s' % e)
+    # from the text down: composed model of parse_sql against the real one
+    slylex.text_stream(chk, 300 if not deep else 5000)
     for (d, case, py) in metas[:3] + metas[-3:]:
         chk.samples.append(dict(dialect=d, src=case['src'], text=case['text'][:200], impl=py['kind']))
     chk.samples.append(dict(theorem='C05_full T := ∀ mode bad toks fuel t log, (∀ x ∈ toks, x ≠ 0) → parse T mode bad toks fuel = .accept t log → bad = false ∧ t.WF T ∧ t.root = 2*T.start+1 ∧ t.yield = toks ∧ t.postorder = log.reverse'))
+    chk.samples.append(dict(theorem='C05_text_full L := ∀ s fuel o t log, parseSql L s fuel = (o, some (.accept t log)) → ∃ segs, o = .ok segs ∧ flat segs = rstrip L.strip s ∧ AllOK L.cfg segs ∧ Chain … (tokensFrom 0 segs) ∧ t.WF L.tables ∧ t.root = start ∧ t.yield = ids L.names segs ∧ (s = rstrip L.strip s ++ tail, tail ⊆ strip class) ∧ (stripped text does not end in a strip character)'))
     return chk.finish(assumptions=ASSUME)
 
 
